@@ -22,7 +22,9 @@ Fresh(cfg) == [cfg |-> cfg,
 
 Put(f, k, v) == [x \in (DOMAIN f) \cup {k} |-> IF x = k THEN v ELSE f[x]]
 SeqToSet(s) == {s[i] : i \in 1..Len(s)}
-Missing(m, S) == ((S \ m.handed) \ m.dropped) \ m.ignored
+(* cfg.kind = "simple" (SimpleSpanProcessor, no hooks): a span whose End returned after a Shutdown call had
+   begun may have found the exporter gone and is legitimately ignored *)
+Missing(m, S) == (((S \ m.handed) \ m.dropped) \ m.ignored) \ (IF m.cfg.kind = "simple" THEN m.raced ELSE {})
 
 (* Step(m, e) = <<next monitor state, set of violated clauses (records)>> *)
 Step(m, e) ==
